@@ -1,2 +1,5 @@
 pub mod util;
+pub mod enc;
+pub mod gen;
 pub mod ctl;
+pub mod codec;
